@@ -35,6 +35,7 @@ type rItem struct {
 	Var  int    `json:"var,omitempty"`  // rendering variant (content)
 	XML  string `json:"xml,omitempty"`  // rendered element (filled by render)
 	Deep int    `json:"deep,omitempty"` // stanza: its (unknown) payload is nested this deep; the rendered text is not stored
+	Repl bool   `json:"repl,omitempty"` // serr (client): the StreamError event handler replaces the connection before it returns, as a StreamManager does
 }
 
 // MarshalJSON: the rendering of a deeply nested payload (megabytes) is not written to case files and replays;
@@ -52,7 +53,9 @@ type recvIn struct {
 	Component    bool    `json:"component,omitempty"`
 	SM           bool    `json:"sm,omitempty"` // client: UnAckQueue present
 	Inb          int     `json:"inb,omitempty"`
-	WFail        int     `json:"wfail,omitempty"` // 1-based failing write, 0 = none
+	WFail        int     `json:"wfail,omitempty"`  // 1-based failing write, 0 = none
+	WFails       []int   `json:"wfails,omitempty"` // further 1-based writes that fail
+	WFrom        int     `json:"wfrom,omitempty"`  // every write from this one on fails (the connection is going away), 0 = none
 	Items        []rItem `json:"items"`
 	Cut          int     `json:"cut"`             // byte offset at which the inbound stream is cut (-1: after everything)
 	Chunk        int     `json:"chunk,omitempty"` // max bytes per Read
@@ -218,6 +221,9 @@ func (it rItem) sx() Sx {
 	case "nonza":
 		return L(Z(3), Zi(it.Tag%len(nonzaXML)))
 	case "serr":
+		if it.Repl {
+			return L(Z(7), Zi(it.Tag%len(serrConds)))
+		}
 		return L(Z(4), Zi(it.Tag%len(serrConds)))
 	case "close":
 		return L(Z(5))
@@ -291,9 +297,62 @@ func recvInputSx(in recvIn) Sx {
 	items := in.completeItems()
 	xs := make([]Sx, len(items))
 	for i, it := range items {
+		if in.Component {
+			it.Repl = false // a component has no such branch
+		}
 		xs[i] = it.sx()
 	}
-	return L(B(in.Component), Zi(in.Inb), Opt(in.WFail > 0, Zi(in.WFail)), LS(xs))
+	var idx []Sx
+	for _, k := range in.failingWrites() {
+		idx = append(idx, Zi(k))
+	}
+	return L(B(in.Component), Zi(in.Inb), L(LS(idx), Zi(in.WFrom)), LS(xs))
+}
+
+// failingWrites: the individually failing writes (1-based), WFail first.
+func (in recvIn) failingWrites() []int {
+	var out []int
+	if in.WFail > 0 {
+		out = append(out, in.WFail)
+	}
+	for _, k := range in.WFails {
+		if k > 0 {
+			out = append(out, k)
+		}
+	}
+	return out
+}
+
+// writeFails: does the k-th (1-based) write of the receive loop fail?
+func (in recvIn) writeFails(k int) bool {
+	if in.WFrom > 0 && k >= in.WFrom {
+		return true
+	}
+	for _, f := range in.failingWrites() {
+		if f == k {
+			return true
+		}
+	}
+	return false
+}
+
+// processedItems: the complete items the client's loop processes before it stops: up to the first element it
+// rejects or the closing tag, and not beyond a stream error whose handler has replaced the connection.
+func (in recvIn) processedItems() (processed []rItem, endedBy string) {
+	endedBy = "cut"
+	for _, it := range in.completeItems() {
+		if it.T == "bad" {
+			return processed, "bad"
+		}
+		if it.T == "close" {
+			return processed, "close"
+		}
+		processed = append(processed, it)
+		if it.T == "serr" && it.Repl && !in.Component {
+			return processed, "handover"
+		}
+	}
+	return processed, endedBy
 }
 
 func goid() string {
@@ -307,10 +366,11 @@ func goid() string {
 }
 
 type recvLog struct {
-	mu    sync.Mutex
-	sync_ []Sx
-	async []Sx
-	recvG string
+	mu         sync.Mutex
+	sync_      []Sx
+	async      []Sx
+	recvG      string
+	quitLogged bool // (9) is in the log: the keepalive quit channel has been found closed
 }
 
 func (l *recvLog) addSync(x Sx) { l.mu.Lock(); l.sync_ = append(l.sync_, x); l.mu.Unlock() }
@@ -364,23 +424,27 @@ func packetSx(p stanza.Packet) Sx {
 func runRecv(in recvIn) Sx {
 	if in.WS {
 		o := runRecvWS(in)
-		if len(o.L) != 7 {
+		if len(o.L) != 9 {
 			return o
 		}
 		// same shape as the stub observation: answers in order, then the loss reported, then the loop end
 		sync := append([]Sx{}, o.L[1].L...)
+		// the keepalive quit channel: found closed when the error callback started (shown before it), or when the
+		// Disconnected handler started (shown before the event), or only when the loop had returned
+		quitAtErr, quitAtDisc := o.L[8].Z == 1, o.L[6].Z == 1
+		if quitAtErr {
+			sync = append(sync, L(Z(9)))
+		}
 		for k := int64(0); k < o.L[3].Z; k++ {
 			sync = append(sync, L(Z(4)))
 		}
-		// the keepalive quit channel: closed when the Disconnected handler started (shown before the event), or
-		// only when the loop had returned
-		if o.L[6].Z == 1 {
+		if !quitAtErr && quitAtDisc {
 			sync = append(sync, L(Z(9)))
 		}
 		for k := int64(0); k < o.L[4].Z; k++ {
-			sync = append(sync, L(Z(5), o.L[5]))
+			sync = append(sync, L(Z(5), o.L[5], o.L[7]))
 		}
-		if o.L[6].Z != 1 && o.L[2].Z == 1 {
+		if !quitAtErr && !quitAtDisc && o.L[2].Z == 1 {
 			sync = append(sync, L(Z(9)))
 		}
 		return L(LS(sync), o.L[0], Z(0))
@@ -392,9 +456,36 @@ func runRecv(in recvIn) Sx {
 	st := newStub([][]byte{[]byte(hdr), in.body()}, nil)
 	st.chunk = in.Chunk
 	lg := &recvLog{}
+	quit := make(chan struct{})
+	// sampleQuit: whenever the receive goroutine enters something the harness can see (a handler it calls itself, the
+	// error callback, an event handler, a transport call) the keepalive quit channel is looked at: "closed" (9) is
+	// logged once, before the first such action that finds it closed. The channel is closed by the receive goroutine
+	// itself, so this places the close between two of its own actions.
+	sampleQuit := func() {
+		if in.Component {
+			return
+		}
+		lg.mu.Lock()
+		onRecv := lg.recvG != "" && goid() == lg.recvG
+		lg.mu.Unlock()
+		if !onRecv {
+			return
+		}
+		select {
+		case <-quit:
+			lg.mu.Lock()
+			if !lg.quitLogged {
+				lg.quitLogged = true
+				lg.sync_ = append(lg.sync_, L(Z(9)))
+			}
+			lg.mu.Unlock()
+		default:
+		}
+	}
 	router := xmpp.NewRouter()
 	router.NewRoute().HandlerFunc(func(s xmpp.Sender, p stanza.Packet) {
 		x := packetSx(p)
+		sampleQuit()
 		lg.mu.Lock()
 		// A component hands its packets to the router in arrival order: the ORDER of the handler calls is what is
 		// recorded (in the one ordered log), not which goroutine makes them.
@@ -405,34 +496,40 @@ func runRecv(in recvIn) Sx {
 		}
 		lg.mu.Unlock()
 	})
-	quit := make(chan struct{})
-	quitLogged := false // (9) already in the log: the quit channel was found closed when the Disconnected handler started
-	errH := func(err error) { lg.addSync(L(Z(4))) }
+	// which of the stream errors of the history have a handler that replaces the connection (in order)
+	var serrRepl []bool
+	for _, it := range in.Items {
+		if it.T == "serr" {
+			serrRepl = append(serrRepl, it.Repl && !in.Component)
+		}
+	}
+	nserrSeen := 0
+	// the stream-management state the session holds: the Disconnected event has to carry this very state
+	wantID := ""
+	var wantQ *stanza.UnAckQueue
+	var hook *stubHooks
+	errH := func(err error) { sampleQuit(); lg.addSync(L(Z(4))) }
 	evH := func(e xmpp.Event) error {
+		sampleQuit()
 		switch xmpp.VerifEventState(e) {
 		case xmpp.StateDisconnected:
-			if !in.Component {
-				select {
-				case <-quit:
-					lg.mu.Lock()
-					first := !quitLogged
-					quitLogged = true
-					lg.mu.Unlock()
-					if first {
-						lg.addSync(L(Z(9)))
-					}
-				default:
-				}
-			}
-			lg.addSync(L(Z(5), Z(int64(e.SMState.Inbound))))
+			same := e.SMState.Id == wantID && e.SMState.UnAckQueue == wantQ
+			lg.addSync(L(Z(5), Z(int64(e.SMState.Inbound)), B(same)))
 		case xmpp.StateStreamError:
 			lg.addSync(L(Z(6)))
+			k := nserrSeen
+			nserrSeen++
+			if k < len(serrRepl) && serrRepl[k] {
+				// what a StreamManager does from inside this handler: by the time it returns the transport holds the
+				// connection (and decoder) of a new session
+				hook.replaceDecoder()
+			}
 		default:
 			lg.addSync(L(Z(60), Zi(int(xmpp.VerifEventState(e)))))
 		}
 		return nil
 	}
-	hook := &stubHooks{st: st, tr: st, lg: lg}
+	hook = &stubHooks{st: st, tr: st, lg: lg, sample: sampleQuit}
 	if in.Logged {
 		// the real XMPPTransport read/write path (traffic logger, buffered decoder) over a scripted connection
 		var logBuf bytes.Buffer
@@ -446,8 +543,14 @@ func runRecv(in recvIn) Sx {
 	}
 	st.mu.Lock()
 	st.writes, st.nwrites = nil, 0
-	if in.WFail > 0 {
-		st.writeFailAt[in.WFail] = true
+	for _, k := range in.failingWrites() {
+		st.writeFailAt[k] = true
+	}
+	if in.WFrom > 0 {
+		// every write from this one on (the loop writes at most one answer per <r/>)
+		for k := in.WFrom; k <= in.WFrom+len(in.Items)+8; k++ {
+			st.writeFailAt[k] = true
+		}
 	}
 	st.mu.Unlock()
 	done := make(chan struct{})
@@ -476,6 +579,7 @@ func runRecv(in recvIn) Sx {
 			sm.Id = "smid"
 			sm.UnAckQueue = stanza.NewUnAckQueue()
 		}
+		wantID, wantQ = sm.Id, sm.UnAckQueue
 		xmpp.VerifSetSession(c, sm)
 		go func() {
 			lg.mu.Lock()
@@ -483,7 +587,7 @@ func runRecv(in recvIn) Sx {
 			lg.mu.Unlock()
 			xmpp.VerifRecv(c, quit)
 			lg.mu.Lock()
-			logged := quitLogged
+			logged := lg.quitLogged
 			lg.mu.Unlock()
 			select {
 			case <-quit:
@@ -506,10 +610,8 @@ func runRecv(in recvIn) Sx {
 	// quiescence of the per-packet routing goroutines
 	want := 0
 	if !in.Component {
-		for _, it := range in.completeItems() {
-			if it.T == "close" || it.T == "bad" {
-				break
-			}
+		processed, _ := in.processedItems()
+		for _, it := range processed {
 			if it.T == "serr" {
 				continue // a stream error is routed once, on the receive goroutine itself
 			}
@@ -609,6 +711,22 @@ type stubHooks struct {
 	st *stubTransport
 	tr xmpp.Transport // what the calls are forwarded to: the stub itself or a real XMPPTransport over a scripted net.Conn
 	lg *recvLog
+	// sample: called at the start of every transport call (see sampleQuit in runRecv)
+	sample func()
+	// alt: once set, the transport holds the decoder of ANOTHER connection (a reconnection from inside an event handler)
+	altMu sync.Mutex
+	alt   *xml.Decoder
+}
+
+func (h *stubHooks) replaceDecoder() {
+	h.altMu.Lock()
+	h.alt = xml.NewDecoder(strings.NewReader(""))
+	h.altMu.Unlock()
+}
+func (h *stubHooks) sampled() {
+	if h.sample != nil {
+		h.sample()
+	}
 }
 
 // fakeConn: a net.Conn fed by the stub's scripted input; with errWithData the last
@@ -639,11 +757,20 @@ func (h *stubHooks) DoesStartTLS() bool           { return h.tr.DoesStartTLS() }
 func (h *stubHooks) StartTLS() error              { return h.tr.StartTLS() }
 func (h *stubHooks) LogTraffic(w io.Writer)       {}
 func (h *stubHooks) StartStream() (string, error) { return h.tr.StartStream() }
-func (h *stubHooks) GetDecoder() *xml.Decoder     { return h.tr.GetDecoder() }
-func (h *stubHooks) IsSecure() bool               { return h.tr.IsSecure() }
-func (h *stubHooks) Ping() error                  { return h.tr.Ping() }
-func (h *stubHooks) Read(p []byte) (int, error)   { return h.tr.Read(p) }
+func (h *stubHooks) GetDecoder() *xml.Decoder {
+	h.altMu.Lock()
+	alt := h.alt
+	h.altMu.Unlock()
+	if alt != nil {
+		return alt
+	}
+	return h.tr.GetDecoder()
+}
+func (h *stubHooks) IsSecure() bool             { return h.tr.IsSecure() }
+func (h *stubHooks) Ping() error                { return h.tr.Ping() }
+func (h *stubHooks) Read(p []byte) (int, error) { return h.tr.Read(p) }
 func (h *stubHooks) Write(p []byte) (int, error) {
+	h.sampled()
 	n, err := h.tr.Write(p)
 	v, isAnswer := smAnswerH(p) // the element <a h=/>, whatever its spelling
 	switch {
@@ -656,8 +783,12 @@ func (h *stubHooks) Write(p []byte) (int, error) {
 	}
 	return n, err
 }
-func (h *stubHooks) Close() error         { h.lg.addSync(L(Z(7))); return h.tr.Close() }
-func (h *stubHooks) ReceivedStreamClose() { h.lg.addSync(L(Z(8))); h.tr.ReceivedStreamClose() }
+func (h *stubHooks) Close() error { h.sampled(); h.lg.addSync(L(Z(7))); return h.tr.Close() }
+func (h *stubHooks) ReceivedStreamClose() {
+	h.sampled()
+	h.lg.addSync(L(Z(8)))
+	h.tr.ReceivedStreamClose()
+}
 
 // ---------------------------------------------------------------- WebSocket variant
 // runRecvWS: the same receive loop over the real WebsocketTransport: a loopback
@@ -751,17 +882,33 @@ func runRecvWS(in recvIn) Sx {
 		return L(SBytes("ws-connect-failed: " + err.Error()))
 	}
 	cfg := &xmpp.Config{TransportConfiguration: xmpp.TransportConfiguration{Address: "localhost:1"}, Jid: "u@localhost", Credential: xmpp.Password("p"), StreamManagementEnable: in.SM}
-	c, err := xmpp.NewClient(cfg, router, func(error) { lg.mu.Lock(); nerr++; lg.mu.Unlock() })
+	quitKA := make(chan struct{})
+	quitBefore, quitAtErr, sameState := false, false, true
+	wantID := ""
+	var wantQ *stanza.UnAckQueue
+	c, err := xmpp.NewClient(cfg, router, func(error) {
+		lg.mu.Lock()
+		if nerr == 0 {
+			select {
+			case <-quitKA:
+				quitAtErr = true
+			default:
+			}
+		}
+		nerr++
+		lg.mu.Unlock()
+	})
 	if err != nil {
 		return L(SBytes("newclient-failed"))
 	}
-	quitKA := make(chan struct{})
-	quitBefore := false
 	c.SetHandler(func(e xmpp.Event) error {
 		if xmpp.VerifEventState(e) == xmpp.StateDisconnected {
 			lg.mu.Lock()
 			ndisc++
 			discInb = int64(e.SMState.Inbound)
+			if e.SMState.Id != wantID || e.SMState.UnAckQueue != wantQ {
+				sameState = false
+			}
 			select {
 			case <-quitKA:
 				quitBefore = true
@@ -776,6 +923,7 @@ func runRecvWS(in recvIn) Sx {
 	if in.SM {
 		sm.Id, sm.UnAckQueue = "smid", stanza.NewUnAckQueue()
 	}
+	wantID, wantQ = sm.Id, sm.UnAckQueue
 	xmpp.VerifSetSession(c, sm)
 	done := make(chan struct{})
 	if in.PeerCut {
@@ -879,5 +1027,5 @@ func runRecvWS(in recvIn) Sx {
 	smu.Lock()
 	defer smu.Unlock()
 	async := canonAsync(lg.async, in.Items)
-	return L(LS(async), LS(answers), B(loopEnded), Zi(nerr), Zi(ndisc), Z(discInb), B(quitBefore))
+	return L(LS(async), LS(answers), B(loopEnded), Zi(nerr), Zi(ndisc), Z(discInb), B(quitBefore), B(sameState), B(quitAtErr))
 }
